@@ -18,7 +18,7 @@ for pid in sorted(claims):
     rows.append(f"| {pid} | {len(cov.get('functions_under_contract') or [])} | {cov.get('obligations', '?')} | {cov.get('discharged', '?')} | {ev.get('wall_s', 0):.0f} s | {bs} | {kf} |")
 out = ["| property | functions under contract | obligations | discharged | quick wall time | bounded stand-ins (not counted) | known-finding obligations seen |", "|---|---|---|---|---|---|---|"] + rows
 held = []
-for d in sorted(glob.glob(V + '/seeded/*-C')):
+for d in sorted(glob.glob(V + '/seeded/*-[CD]')):
     try:
         m = json.load(open(d + '/meta.json'))
     except Exception:
@@ -32,7 +32,7 @@ for d in sorted(glob.glob(V + '/seeded/*-C')):
 hout = ["| held-out change | checks run | detected by (first run) | verdict | first failing obligation | detected by (current contracts) |", "|---|---|---|---|---|---|"] + held
 seeds = []
 for d in sorted(glob.glob(V + '/seeded/*')):
-    if d.endswith('-C'):
+    if d.endswith('-C') or d.endswith('-D'):
         continue
     try:
         m = json.load(open(d + '/meta.json'))
@@ -71,31 +71,33 @@ put('status', out)
 put('seeds', sout)
 put('heldout', hout)
 
-ben = []
-nfirst = nfinal = ntotal = 0
-for d in sorted(glob.glob(V + '/benign/C*')):
-    pid = os.path.basename(d)
-    try:
-        first = json.load(open(d + '/results_first_run.json'))
-    except Exception:
-        first = {}
-    try:
-        final = json.load(open(d + '/results.json'))
-    except Exception:
-        final = {}
-    for k in sorted(set(first) | set(final)):
-        ntotal += 1
-        f0 = first.get(k, {}); f1 = final.get(k, {})
-        a0 = ' '.join(f0.get('alarms', [])) or '-'
-        a1 = ' '.join(f1.get('alarms', [])) or '-'
-        if a0 != '-': nfirst += 1
-        if a1 != '-': nfinal += 1
-        kind = {'1': 'rename', '2': 'control flow', '3': 'extract helper'}.get(k.split('/')[-1], '?')
-        notes = ' '.join(f1.get('notes', []))
-        ben.append(f"| {k} | {kind} | {' '.join(f1.get('checks_run', f0.get('checks_run', [])))} | {a0} | {a1} | {notes or '-'} |")
-bout = [f"{ntotal} behaviour-preserving changes; first run: {nfirst} raised an alarm; with the corrected machinery: {nfinal}.", "",
-        "| change | nominal kind | checks run | alarms, first run | alarms, current machinery | re-bindings used |", "|---|---|---|---|---|---|"] + ben
-put('benign', bout)
+def benign_table(dirname, tag):
+    ben = []
+    nfirst = nfinal = ntotal = 0
+    for d in sorted(glob.glob(V + '/' + dirname + '/C*')):
+        try:
+            first = json.load(open(d + '/results_first_run.json'))
+        except Exception:
+            first = {}
+        try:
+            final = json.load(open(d + '/results.json'))
+        except Exception:
+            final = {}
+        for k in sorted(set(first) | set(final)):
+            ntotal += 1
+            f0 = first.get(k, {}); f1 = final.get(k, {})
+            a0 = ' '.join(f0.get('alarms', [])) or '-'
+            a1 = ' '.join(f1.get('alarms', [])) or '-'
+            if a0 != '-': nfirst += 1
+            if a1 != '-': nfinal += 1
+            notes = ' '.join(f1.get('notes', []))
+            ben.append(f"| {k} | {' '.join(f1.get('checks_run', f0.get('checks_run', [])))} | {a0} | {a1} | {notes or '-'} |")
+    bout = [f"{ntotal} behaviour-preserving changes; first run: {nfirst} raised an alarm; with the machinery as committed: {nfinal}.", "",
+            "| change | checks run | alarms, first run | alarms, machinery as committed | re-bindings used |", "|---|---|---|---|---|"] + ben
+    put(tag, bout)
+benign_table('benign', 'benign')
+benign_table('benign2', 'benign2')
+
 
 open(p, 'w').write(s)
 print('DESIGN.md tables regenerated')
